@@ -1,2 +1,2 @@
 import ScVerif.C01.Drv
-def main : IO Unit := ScVerif.Line.runDriver ScVerif.C01.handle
+def main : IO Unit := ScVerif.Line.runDriverS ScVerif.C01.DrvState.none ScVerif.C01.handleS
